@@ -51,3 +51,12 @@ func init() {
 		variant{Prop: "C03", Name: "group-method-hands-the-inner-node-through", Patch: "seeded/C03-r9-3/patch.diff", Rule: "R3.6", Construct: "ParseGroupedExpression"},
 	)
 }
+
+// the trivia list emptied in place (R15.6 accepts it): that no token shares the backing array is R14.5's obligation
+func init() {
+	addVariants(
+		variant{Prop: "C15", Name: "perf-trivia-list-truncated-in-place", Patch: "benign/C04-r10-3/patch.diff", Benign: true},
+		variant{Prop: "C14", Name: "perf-trivia-list-truncated-in-place-C14", Patch: "benign/C04-r10-3/patch.diff", Benign: true},
+		variant{Prop: "C14", Name: "perf-trivia-list-truncated-and-shared-with-the-token", Patch: "benign/C04-r10-3/patch.diff", File: "lexer/base_functions.go", Old: "LeadingComments: append([]string(nil), l.leadingComments...),", New: "LeadingComments: l.leadingComments,", Nth: 1, Rule: "R14.5", Construct: "LeadingComments"},
+	)
+}
